@@ -57,6 +57,14 @@ def draw_table(r, form, delim=None, simple=False, strsafe=False, nrows=None, fie
         n = 2 ** max(0, k)
         n += wpick(r, [(0, 6), (1, 1), (-1, 1)]) if n > 2 else 0
         return {"fields": fields, "nrows": n, "dseed": r.randrange(1 << 30)}
+    if fields is None and nrows is None and chance(r, 0.012):
+        # very many columns: more than 64 (a machine word of column flags), rarely many hundreds (a header of tens of
+        # kilobytes) -- the quantifiers put no bound on the number of fields
+        nf = wpick(r, [(r.randrange(65, 140), 5), (r.randrange(300, 1300), 1)])
+        types = ["i4", "f8", "i2", "S3", "u1", "f4", "i8"] if form == "bin" else ["i4", "f8", "i2", "S3", "u1", "f4", "i8"]
+        order = pick(r, ["<", ">"])
+        fields = [{"n": "c%d" % i, "t": pick(r, types), "s": [], "o": order, "p": "simple"} for i in range(nf)]
+        return {"fields": fields, "nrows": r.randrange(1, 6), "dseed": r.randrange(1 << 30)}
     if fields is None and nrows is None and form == "txt" and chance(r, 0.012):
         # very long text rows (a 2-d sub-array column of a few thousand numbers: 20 .. 120 k characters per row),
         # longer than any line buffer a reader may use
@@ -159,6 +167,11 @@ def caller_roundtrip(r, pfx, form, avoid, delims):
             if fform == "sfile" and chance(r, 0.3):
                 # the header dict comes from an earlier file of this caller (or from the file about to be replaced)
                 op["hdr_from"] = pick(r, paths)
+            elif fform == "sfile" and chance(r, 0.06):
+                # a long user header, padded so that the END line of the stored header lands on (or a few bytes
+                # before) a multiple of a block size a header reader may work in
+                op["hdr_align"] = {"block": pick(r, [1024, 4096, 8192, 16384, 65536]), "back": r.randrange(0, 7),
+                                   "mult": r.randrange(1, 3)}
             ops.append(op)
             if form == "txt" and chance(r, 0.2):
                 f = tab["fields"] if chance(r, 0.35) else other_order(tab["fields"])
@@ -568,7 +581,7 @@ def plan(S, prop, mode, tier, avoid):
         live = [c for c in live if idx[c] < len(callers[c])]
     # how the caller spells file names: absolute (usual), or with an environment variable / a tilde that esutil
     # expands itself
-    pathform = wpick(cfg, [("abs", 8), ("var", 1), ("home", 1)])
+    pathform = wpick(cfg, [("abs", 8), ("var", 1), ("home", 1), ("mixed", 1.5)])
     return {"cfg": {"callers": ncallers, "pathform": pathform}, "ops": flat}
 
 
